@@ -890,6 +890,11 @@ func (s *runtimeState) loadAuth(compiled config.Compiled) error {
 }
 
 func (s *runtimeState) setAuthLocked(auth *runtimeAuth) {
+	// Rebuilt HMAC authenticators keep the nonces their predecessors for the
+	// same route have already seen (replay protection survives a reload).
+	for route, a := range auth.hmacByRoute {
+		a.InheritReplayState(s.hmacByRoute[route])
+	}
 	s.pullAuthorize = auth.pullAuthorize
 	s.workerAuthorize = auth.workerAuthorize
 	s.adminAuthorize = auth.adminAuthorize
